@@ -55,8 +55,10 @@ type c36DB struct {
 	rollbacks int
 }
 
+type c36CtxKey struct{}
+
 func (d *c36DB) BeginTx(ctx context.Context, opts *sql.TxOptions) (*database.TxController, error) {
-	if d.failBegin {
+	if d.failBegin && ctx.Value(c36CtxKey{}) != nil {
 		return nil, errors.New("c36: begin failed")
 	}
 	_, nested := database.TxControllerFromContext(ctx)
@@ -64,7 +66,9 @@ func (d *c36DB) BeginTx(ctx context.Context, opts *sql.TxOptions) (*database.TxC
 	if err != nil {
 		return nil, err
 	}
-	if !nested {
+	// only the transaction begun by the case under test is observed (the storage's background GC
+	// begins transactions on the same database with its own context)
+	if !nested && ctx.Value(c36CtxKey{}) != nil {
 		d.mu.Lock()
 		d.roots = append(d.roots, tx)
 		d.mu.Unlock()
@@ -305,7 +309,7 @@ func (c c36) Run(in string, scratch string) Result {
 	}
 	db := fx.db
 	db.reset(setup == "beginerr")
-	ctx := context.Background()
+	ctx := context.WithValue(context.Background(), c36CtxKey{}, true)
 
 	var readers []io.ReadCloser
 	var inner []*c36Reader
